@@ -8,6 +8,7 @@ from ..astutil import attr_writes, is_none
 from ..cfg import CFG, Node, cfg_of, node_calls, walk_own
 from ..closed import OK, ClosedFlow, find_roles, resolver, state_member
 from ..flow import fmt_path, occurred_before, paths_avoiding
+from ..guard import walk
 from ..report import Ctx
 from ..src import AnalysisError, Func, norm, own_nodes, walk_no_nested
 from ..sym import EnumVal, Ref, Unknown
@@ -46,6 +47,7 @@ def run(ctx: Ctx) -> None:
     r3(ctx, roles)
     r4(ctx, roles)
     r5(ctx, roles)
+    r6(ctx, roles)
 
 
 # ----------------------------------------------------------------------- R1
@@ -470,3 +472,23 @@ def r5(ctx: Ctx, roles) -> None:
             if not (isinstance(p.ast, ast.Return) and any(pp.kind == "cond" and roles.state_attr in norm(pp.ast) for _, pp in p.pred)):
                 guard_exit_ok = False
     ctx.ob("C05.R5", closer, "CLOSED set on every path past the guard", guard_exit_ok, "a path through the closer returns without marking the connection CLOSED")
+
+
+# ----------------------------------------------------------------------- R6
+def r6(ctx: Ctx, roles) -> None:
+    """"a disconnect or fatal error that has taken effect is never undone" presupposes that it takes effect: the
+    three close causes of the public surface - disconnect(), force_disconnect(), report_fatal_error() - reach the
+    closer on every normal path, whatever the state and whatever was recorded before (an early return for "nothing
+    to tear down yet" or "an error is already recorded" lets a connect phase carry the object on to CONNECTED)."""
+    res = resolver(ctx)
+    for name in ("disconnect", "force_disconnect", "report_fatal_error"):
+        fn = roles.conn.methods.get(name)
+        ctx.require(fn is not None, f"APIConnection.{name} missing")
+        g = cfg_of(ctx, fn)
+        closing = {n for n in g.reachable() if any(roles.closer in res.callees(fn, c).funcs for c in node_calls(n))}
+        avoid = walk(g, {}, lambda n: None, blocked=closing) if closing else {g.exit}
+        esc = [n for n in avoid if n.kind == "stmt" and isinstance(n.ast, ast.Return)]
+        ctx.ob("C05.R6", fn, f"{name}() reaches the closer on every normal path", bool(closing) and g.exit not in avoid, f"can return without closing at {[(n.lineno, n.text(40)) for n in esc[:3]] or 'the end of the function'}: the close request is dropped and a connect phase in flight carries the object on")
+    from .c09 import write_path_unconverted
+
+    write_path_unconverted(ctx, "C05.R6")
